@@ -22,7 +22,7 @@ RULE = (
     "differences at relative steps 1e-4 and 1e-5 (both must agree, else inconclusive). distinct = configurations with a non-zero gradient"
 )
 REQUIRED_COVER = ["kind:channel_g", "kind:radius_unequal_groups", "kind:length", "kind:axial_resistivity", "kind:capacitance", "kind:init_v_singular",
-                  "kind:init_gate", "kind:synapse_g", "kind:init_syn_state", "kind:ball_geometry", "kind:chunked_with_surplus_steps", "kind:data_stimulate", "kind:data_set", "scheme:crank_nicolson",
+                  "kind:init_gate", "kind:synapse_g", "kind:init_syn_state", "kind:ball_geometry", "kind:chunked_with_surplus_steps", "kind:data_stimulus_samples_incl_zero", "kind:data_stimulate", "kind:data_set", "scheme:crank_nicolson",
                   "backend:jaxley.thomas", "backend:jax.sparse", "ckpt:exact", "ckpt:over", "nonzero_gradient"]
 ASSUMPTIONS = [
     "runs are 5 steps long; losses are weighted quadratic forms of the recordings",
@@ -67,6 +67,9 @@ KINDS = {
     # first call whose checkpoint layout is longer than its run (surplus steps are masked): gradients must flow through the hand-over
     "cell:chunked_over": ("cell_hh_leak", {"mode": "train", "calls": [("b0", "HH_gNa"), ("ball", "radius")], "chunked": [2, 2]}),
     "cell:chunked_exact": ("cell_hh_leak", {"mode": "train", "calls": [("b0", "HH_gNa"), ("ball", "radius")], "chunked": [3, 1]}),
+    # ---- the samples of a data-fed stimulus themselves (a learned trace), several of them exactly 0.0
+    "comp:data_stimulus_trace": ("comp_hh", {"mode": "data_stim_trace", "trace": [0.0, 0.3, 0.0, 0.0, 0.2], "fd_floor": 0.1}),
+    "cell:data_stimulus_trace": ("cell_hh_leak", {"mode": "data_stim_trace", "trace": [0.0, 0.0, 0.4, 0.0, 0.0], "fd_floor": 0.1}),
     # ---- network
     "net:synapse_g": ("net_syn", {"mode": "train", "calls": [("Iono", "IonotropicSynapse_gS")]}),
     "net:synapse_g_edge": ("net_syn", {"mode": "train", "calls": [("Test_e0", "TestSynapse_gC")]}),
@@ -80,6 +83,7 @@ COVER_OF_KIND = {
     "channel_g": "kind:channel_g", "radius_unequal_groups": "kind:radius_unequal_groups", "length": "kind:length",
     "axial_resistivity": "kind:axial_resistivity", "capacitance": "kind:capacitance", "init_v_singular": "kind:init_v_singular",
     "init_v": "kind:init_v_singular", "init_gate": "kind:init_gate", "synapse_g": "kind:synapse_g", "synapse_g_edge": "kind:synapse_g",
+    "data_stimulus_trace": "kind:data_stimulus_samples_incl_zero",
     "chunked_over": "kind:chunked_with_surplus_steps", "chunked_exact": "kind:chunked",
     "ball_radius": "kind:ball_geometry", "ball_length": "kind:ball_geometry", "ball_soma": "kind:ball_geometry", "ball_postsynaptic": "kind:ball_geometry",
     "init_syn_state": "kind:init_syn_state", "data_stimulate": "kind:data_stimulate", "data_set": "kind:data_set", "data_set_radius": "kind:data_set",
@@ -119,7 +123,7 @@ def _setup(kind):
         stim_view = m
         m.record("HH_n", verbose=False)
     base_stim = jnp.asarray(models.stim_series(T, 1) * 2.0)
-    if spec["mode"] != "data_stim":
+    if spec["mode"] not in ("data_stim", "data_stim_trace"):
         stim_view.stimulate(base_stim, verbose=False)
     if spec["mode"] == "train":
         for vname, key in spec["calls"]:
@@ -176,6 +180,13 @@ def run_config(kind, scheme, backend, ckname):
             def loss(theta):
                 rec = jx.integrate(m, params=unflat(theta), **kw)
                 return jnp.sum(W * (rec + 60.0) ** 2)
+    elif spec["mode"] == "data_stim_trace":
+        flat0 = np.asarray(spec["trace"], float)
+
+        def loss(theta):
+            ds = stim_view.data_stimulate(theta)
+            rec = jx.integrate(m, data_stimuli=ds, **kw)
+            return jnp.sum(W * (rec + 60.0) ** 2)
     elif spec["mode"] == "data_stim":
         flat0 = np.asarray([1.0])
 
@@ -207,13 +218,13 @@ def run_config(kind, scheme, backend, ckname):
     for rel in (1e-4, 1e-5):
         fd = np.zeros_like(flat0)
         for i in range(len(flat0)):
-            h = rel * max(abs(flat0[i]), 1e-3)
+            h = rel * max(abs(flat0[i]), float(spec.get("fd_floor", 1e-3)))
             e = np.zeros_like(flat0)
             e[i] = h
             fd[i] = (float(jl(jnp.asarray(flat0 + e))) - float(jl(jnp.asarray(flat0 - e)))) / (2 * h)
         fds.append(fd)
     fd = fds[1]  # the finer estimate
-    scale = np.maximum(np.abs(fd), 1e-9 * (abs(L0) / np.maximum(np.abs(flat0), 1e-3)))
+    scale = np.maximum(np.abs(fd), 1e-9 * (abs(L0) / np.maximum(np.abs(flat0), float(spec.get("fd_floor", 1e-3)))))
     fd_gap = np.abs(fds[0] - fds[1]) / scale
     if np.any(fd_gap > 1e-6):
         out["refusals"].append(f"inconclusive_fd:{short}")
